@@ -325,6 +325,22 @@ func runC20(c *fw.Ctx) {
 			return
 		}
 	}
+	// several diagnostics with the same place and the same message
+	for k, text := range []string{
+		"send [USD 1] (source = @a destination = { remaining to @b remaining to @c 1/2 to @d })",
+		"send [USD 1] (source = { remaining from @a remaining from @b remaining from @c 1/3 from @d } destination = @e)",
+		"send [USD 1] (source = @a destination = { remaining kept remaining kept remaining kept 0/1 to @d })\nsend [USD 1] (source = @a destination = { remaining to @b remaining to @c 1/1 to @d })",
+	} {
+		id := "same-diagnostic-twice/" + itoa(k)
+		if !c.Want(10_100_000+k, id) {
+			continue
+		}
+		cs := &gen.Case{Script: &gen.Script{}, Vars: map[string]string{}, Balances: map[string]map[string]*big.Int{}, Meta: map[string]map[string]string{}, Flags: map[string]bool{}, Tags: map[string]bool{}}
+		c.Count("files_with_repeated_diagnostics", 1)
+		if !oneCase(c, c.Rng(id), dir, id, "repeated-diagnostics", text, cs) {
+			return
+		}
+	}
 	n := c.N(2000, 30000)
 	for i := 0; i < n; i++ {
 		id := "case/" + itoa(i)
@@ -460,6 +476,11 @@ func oneCase(c *fw.Ctx, r *rng.R, dir, id, class, text string, cs *gen.Case) boo
 			}
 			c.Count("check_diagnostics_matched", 1)
 		}
+		// every diagnostic, also those that have the same place and message as another one
+		if n := strings.Count(pr.stdout, script+":"); n < len(lib.Diagnostics) {
+			c.Violation("check-diagnostic-missing:count", fmt.Sprintf("the library reports %d diagnostics, `numscript check` prints %d", len(lib.Diagnostics), n), input(ex))
+			return false
+		}
 		c.Distinct(fmt.Sprintf("check|%s|%v|%d", class, errs > 0, len(lib.Diagnostics)))
 	}
 	// ---- run ----
@@ -521,6 +542,11 @@ func oneCase(c *fw.Ctx, r *rng.R, dir, id, class, text string, cs *gen.Case) boo
 	os.WriteFile(mf, []byte(mjs), 0o644)
 	rf := filepath.Join(dir, "raw.json")
 	os.WriteFile(rf, []byte(raw), 0o644)
+	// several channels in one command: the script by path, the variables by file, balances and
+	// metadata on stdin
+	vf2 := filepath.Join(dir, "v2.json")
+	os.WriteFile(vf2, []byte(mustJSON(cs.Vars)), 0o644)
+	mixedStdin := `{"balances":` + balancesJSON(cs) + `,"metadata":` + mustJSON(cs.Meta) + `}`
 	channels := []struct {
 		name      string
 		stdin     string
@@ -531,6 +557,7 @@ func oneCase(c *fw.Ctx, r *rng.R, dir, id, class, text string, cs *gen.Case) boo
 		{"stdin", raw, "", append([]string{"run", "--stdin", "--output-format", "json"}, flagArgs...)},
 		{"stdin_file", "", rf, append([]string{"run", "--stdin", "--output-format", "json"}, flagArgs...)},
 		{"files", "", "", append([]string{"run", script, "-v", vf, "-b", bf, "-m", mf, "--output-format", "json"}, flagArgs...)},
+		{"mixed", mixedStdin, "", append([]string{"run", script, "-v", vf2, "--stdin", "--output-format", "json"}, flagArgs...)},
 	}
 	big := false
 	for _, p := range libOutPostings(libOut) {
